@@ -104,7 +104,7 @@ impl Property for C13 {
 		96
 	}
 	fn cases(&self, tier: Tier) -> u64 {
-		tier.pick(64_000, 1_500_000)
+		tier.pick(500_000, 5_000_000)
 	}
 
 	fn run(&self, tape: &[u32], ctx: &mut Ctx) -> CaseResult {
